@@ -1,1 +1,321 @@
 // Kani harnesses compiled as `mod verif_kani` inside /repo/src/api/ca.rs (cfg(kani) only).
+//
+// Kernels: Revocation::new, Revocations::{add, remove, remove_expired,
+// apply_delta, to_crl_entries}, RevocationsDelta::{add, drop}, CertInfo::revocation,
+// ChildStatus::{set_success, set_failure, set_suspended, child_state},
+// ParentStatus/RepoStatus::{set_failure, set_last_updated, opt_failure}.
+use super::*;
+use crate::config::verif_kani::{advance_now, fixed_random_state, stub_now, sym_now, t0};
+
+//------------ C03(a): the revocation list the CRL is built from --------------
+
+fn any_expiry() -> Time {
+    // anywhere in 0..2^21 s after T0: before, inside and after the `now` window
+    let e: u32 = kani::any();
+    kani::assume(e < (1 << 21));
+    t0() + Duration::seconds(e as i64)
+}
+
+fn rev(serial: u64, expires: Time) -> Revocation {
+    Revocation::new(Serial::from(serial), expires)
+}
+
+fn has_serial(list: &[Revocation], serial: u64) -> bool {
+    let want = Serial::from(serial);
+    let mut i = 0;
+    while i < list.len() {
+        if list[i].serial == want { return true; }
+        i += 1;
+    }
+    false
+}
+
+/// Low byte of a serial (harness serials are small integers).
+fn low(r: &Revocation) -> u8 { r.serial.into_array()[19] }
+
+/// `remove_expired` drops exactly the entries whose object has expired
+/// (expires <= now), returns exactly those, and keeps every unexpired
+/// revocation, in order.
+// vk: bound=2 entries (serials 1 and 2), expiry anywhere in a 2^21 s span around the 2^20 s now-window
+#[kani::proof]
+#[kani::unwind(4)]
+#[kani::stub(rpki::repository::x509::Time::now, stub_now)]
+fn c03a_remove_expired_exact() {
+    let now = sym_now();
+    let (e1, e2) = (any_expiry(), any_expiry());
+    let mut revs = Revocations::default();
+    revs.add(rev(1, e1));
+    revs.add(rev(2, e2));
+    let expired = revs.remove_expired();
+    let live1 = e1 > now;
+    let live2 = e2 > now;
+    let n_live = live1 as usize + live2 as usize;
+    assert!(revs.0.len() == n_live);
+    assert!(expired.len() == 2 - n_live);
+    // who is where
+    if live1 {
+        assert!(low(&revs.0[0]) == 1 && revs.0[0].expires == e1);
+        if live2 { assert!(low(&revs.0[1]) == 2 && revs.0[1].expires == e2); }
+    } else if live2 {
+        assert!(low(&revs.0[0]) == 2 && revs.0[0].expires == e2);
+    }
+    if !live1 {
+        assert!(low(&expired[0]) == 1);
+        if !live2 { assert!(low(&expired[1]) == 2); }
+    } else if !live2 {
+        assert!(low(&expired[0]) == 2);
+    }
+    kani::cover!(live1 && !live2);
+    kani::cover!(!live1 && live2);
+    kani::cover!(live1 && live2);
+    kani::cover!(!live1 && !live2);
+    std::mem::forget((revs, expired));
+}
+
+/// Adding a revocation keeps the existing ones; the CRL entry list has one
+/// entry per revocation with its serial and revocation date.
+// vk: unwindset=memcmp.0:33; bound=2 entries
+#[kani::proof]
+#[kani::unwind(5)]
+#[kani::stub(rpki::repository::x509::Time::now, stub_now)]
+fn c03a_add_and_crl_entries() {
+    let now = sym_now();
+    let (s1, s2): (u64, u64) = (kani::any(), kani::any());
+    let mut revs = Revocations::default();
+    revs.add(rev(s1, any_expiry()));
+    revs.add(rev(s2, any_expiry()));
+    assert!(revs.0.len() == 2);
+    assert!(revs.0[0].serial == Serial::from(s1) && revs.0[1].serial == Serial::from(s2));
+    let crl = revs.to_crl_entries();
+    assert!(crl.len() == 2);
+    // CrlEntry has no accessors: compare with the expected entry bytewise
+    // (20-byte serial + 12-byte time, no padding).
+    let bytes = |e: CrlEntry| unsafe { std::mem::transmute::<CrlEntry, [u8; 32]>(e) };
+    assert!(bytes(crl[0]) == bytes(CrlEntry::new(Serial::from(s1), now)));
+    assert!(bytes(crl[1]) == bytes(CrlEntry::new(Serial::from(s2), now)));
+    kani::cover!(s1 != s2);
+    kani::cover!(s1 == s2);
+    std::mem::forget((revs, crl));
+}
+
+/// `remove` takes away the named entry only.
+// vk: unwindset=memcmp.0:21; bound=2 entries
+#[kani::proof]
+#[kani::unwind(5)]
+#[kani::stub(rpki::repository::x509::Time::now, stub_now)]
+fn c03a_remove_only_named() {
+    let _now = sym_now();
+    let (s1, s2): (u64, u64) = (kani::any(), kani::any());
+    kani::assume(s1 != s2);
+    let r1 = rev(s1, any_expiry());
+    let r2 = rev(s2, any_expiry());
+    let mut revs = Revocations::default();
+    revs.add(r1);
+    revs.add(r2);
+    revs.remove(&r2);
+    assert!(revs.0.len() == 1);
+    assert!(revs.0[0] == r1);
+    // removing something that is not there changes nothing
+    revs.remove(&r2);
+    assert!(revs.0.len() == 1 && revs.0[0] == r1);
+    kani::cover!(r1.expires == r2.expires);
+    kani::cover!(r1.expires != r2.expires);
+    std::mem::forget(revs);
+}
+
+/// `apply_delta` (replay of a stored publication event): dropped entries go,
+/// added ones come, everything else stays.
+// vk: unwindset=memcmp.0:21; bound=1 existing entry, 1 added, 1 dropped
+#[kani::proof]
+#[kani::unwind(5)]
+#[kani::stub(rpki::repository::x509::Time::now, stub_now)]
+fn c03a_apply_delta() {
+    let _now = sym_now();
+    let (s1, s2, s3): (u64, u64, u64) = (kani::any(), kani::any(), kani::any());
+    kani::assume(s1 != s2);
+    let r1 = rev(s1, any_expiry());
+    let r2 = rev(s2, any_expiry());
+    let r3 = rev(s3, r1.expires);
+    let mut revs = Revocations::default();
+    revs.add(r1);
+    let mut delta = RevocationsDelta::default();
+    delta.add(r2);
+    delta.drop(r3);
+    revs.apply_delta(delta);
+    assert!(has_serial(&revs.0, s2));
+    assert!(has_serial(&revs.0, s1) == (r1 != r3));
+    assert!(revs.0.len() == if r1 != r3 { 2 } else { 1 });
+    kani::cover!(r1 == r3);
+    kani::cover!(r1 != r3);
+    std::mem::forget(revs);
+}
+
+//------------ C03(b): revocations carry the object's serial and expiry --------
+
+#[kani::proof]
+#[kani::stub(rpki::repository::x509::Time::now, stub_now)]
+fn c03b_revocation_new() {
+    let now = sym_now();
+    let s: u64 = kani::any();
+    let e = any_expiry();
+    let r = Revocation::new(Serial::from(s), e);
+    assert!(r.serial == Serial::from(s));
+    assert!(r.expires == e);
+    assert!(r.revocation_date == now);
+    kani::cover!(e > now);
+    kani::cover!(e <= now);
+}
+
+/// `CertInfo::revocation` (issued child certificates, received certificates):
+/// the revocation names the certificate's own serial and expires with it.
+/// Fixture: only `serial` and `validity` of the `CertInfo` are initialised
+/// (the function reads nothing else; the rest is arbitrary for CBMC).
+#[kani::proof]
+#[kani::stub(rpki::repository::x509::Time::now, stub_now)]
+fn c03b_certinfo_revoke() {
+    let now = sym_now();
+    let s: u64 = kani::any();
+    let e = any_expiry();
+    let mut slot = std::mem::MaybeUninit::<IssuedCertificate>::uninit();
+    let p = slot.as_mut_ptr();
+    unsafe {
+        std::ptr::addr_of_mut!((*p).serial).write(Serial::from(s));
+        std::ptr::addr_of_mut!((*p).validity).write(Validity::new(t0(), e));
+    }
+    let cert: &IssuedCertificate = unsafe { &*p };
+    let r = cert.revocation();
+    assert!(r.serial == Serial::from(s));
+    assert!(r.expires == e);
+    assert!(r.revocation_date == now);
+    kani::cover!(s == 0);
+    kani::cover!(s == u64::MAX);
+}
+
+//------------ C19: status records ---------------------------------------------
+
+fn an_error() -> ErrorResponse {
+    ErrorResponse {
+        label: String::new(),
+        msg: String::new(),
+        args: HashMap::new(),
+        delta_error: None,
+    }
+}
+
+fn child_shows_failure(st: &ChildStatus) -> bool {
+    match st.last_exchange.as_ref() {
+        Some(e) => !e.result.was_success(),
+        None => false,
+    }
+}
+
+/// Child status after two exchanges at t1 < t2, each a success or a failure
+/// (or a suspension in between): a failure is shown iff the LAST exchange
+/// failed; last_success is the time of the last success and is not advanced
+/// by a failure; any exchange clears `suspended`.
+// vk: bound=2 outcomes (each success / failure / suspend), strictly increasing symbolic times in a 2^20 s window
+#[kani::proof]
+#[kani::unwind(4)]
+#[kani::stub(rpki::repository::x509::Time::now, stub_now)]
+#[kani::stub(std::hash::RandomState::new, fixed_random_state)]
+fn c19a_child_status_two_outcomes() {
+    let t1 = sym_now().timestamp();
+    let mut st = ChildStatus::default();
+    let op1: u8 = kani::any();
+    let op2: u8 = kani::any();
+    kani::assume(op1 < 3 && op2 < 3);
+    match op1 {
+        0 => st.set_success(None),
+        1 => st.set_failure(None, an_error()),
+        _ => st.set_suspended(),
+    }
+    let t2 = advance_now().timestamp();
+    match op2 {
+        0 => st.set_success(None),
+        1 => st.set_failure(None, an_error()),
+        _ => st.set_suspended(),
+    }
+    // expected record
+    let last_exch = if op2 < 2 { Some((op2, t2)) } else if op1 < 2 { Some((op1, t1)) } else { None };
+    let last_succ = if op2 == 0 { Some(t2) } else if op1 == 0 { Some(t1) } else { None };
+    assert!(child_shows_failure(&st) == matches!(last_exch, Some((1, _))));
+    match (&st.last_exchange, last_exch) {
+        (None, None) => {}
+        (Some(e), Some((op, t))) => {
+            assert!(e.result.was_success() == (op == 0));
+            assert!(e.timestamp == Timestamp::new(t));
+        }
+        _ => assert!(false),
+    }
+    assert!(st.last_success == last_succ.map(Timestamp::new));
+    let suspended = op2 == 2;
+    assert!((st.child_state() == ChildState::Suspended) == suspended);
+    if suspended { assert!(st.suspended == Some(Timestamp::new(t2))); }
+    kani::cover!(op1 == 0 && op2 == 1);
+    kani::cover!(op1 == 1 && op2 == 0);
+    kani::cover!(op1 == 2 && op2 == 1);
+    kani::cover!(op1 == 0 && op2 == 2);
+    std::mem::forget(st);
+}
+
+fn http() -> ServiceUri { ServiceUri::Http(String::new()) }
+
+fn exch_failed(e: &Option<ParentExchange>) -> bool {
+    match e.as_ref() {
+        Some(e) => !e.result.was_success(),
+        None => false,
+    }
+}
+
+/// Repository status: same rule; a failure does not touch last_success.
+// vk: bound=2 outcomes (success / failure), increasing symbolic times, empty published list, ServiceUri::Http
+#[kani::proof]
+#[kani::unwind(4)]
+#[kani::stub(rpki::repository::x509::Time::now, stub_now)]
+#[kani::stub(std::hash::RandomState::new, fixed_random_state)]
+fn c19b_repo_status_two_outcomes() {
+    let t1 = sym_now().timestamp();
+    let mut st = RepoStatus::default();
+    let ok1: bool = kani::any();
+    let ok2: bool = kani::any();
+    if ok1 { st.set_last_updated(http()) } else { st.set_failure(http(), an_error()) }
+    let t2 = advance_now().timestamp();
+    if ok2 { st.set_last_updated(http()) } else { st.set_failure(http(), an_error()) }
+    assert!(exch_failed(&st.last_exchange) == !ok2);
+    assert!(st.last_exchange.as_ref().map(|e| e.timestamp) == Some(Timestamp::new(t2)));
+    let want = if ok2 { Some(t2) } else if ok1 { Some(t1) } else { None };
+    assert!(st.last_success == want.map(Timestamp::new));
+    assert!(st.published.is_empty());
+    kani::cover!(ok1 && !ok2);
+    kani::cover!(!ok1 && ok2);
+    std::mem::forget(st);
+}
+
+/// Parent status: same rule; a failure erases neither the last success time
+/// nor the entitlements last received.
+// vk: bound=2 outcomes (success / failure), increasing symbolic times, empty entitlement list, ServiceUri::Http
+#[kani::proof]
+#[kani::unwind(4)]
+#[kani::stub(rpki::repository::x509::Time::now, stub_now)]
+#[kani::stub(std::hash::RandomState::new, fixed_random_state)]
+fn c19b_parent_status_two_outcomes() {
+    let t1 = sym_now().timestamp();
+    let mut st = ParentStatus::default();
+    let ok1: bool = kani::any();
+    let ok2: bool = kani::any();
+    if ok1 { st.set_last_updated(http()) } else { st.set_failure(http(), an_error()) }
+    let t2 = advance_now().timestamp();
+    if ok2 { st.set_last_updated(http()) } else { st.set_failure(http(), an_error()) }
+    assert!(exch_failed(&st.last_exchange) == !ok2);
+    assert!(st.last_exchange.as_ref().map(|e| e.timestamp) == Some(Timestamp::new(t2)));
+    let want = if ok2 { Some(t2) } else if ok1 { Some(t1) } else { None };
+    assert!(st.last_success == want.map(Timestamp::new));
+    assert!(st.classes.is_empty());
+    kani::cover!(ok1 && !ok2);
+    kani::cover!(!ok1 && ok2);
+    std::mem::forget(st);
+}
+
+#[cfg(test)]
+#[path = "/verif/.cache/playback/api_ca.rs"]
+mod playback;
